@@ -240,7 +240,8 @@ CHECKS = {
         "placed several times, partial exposure, and a stream that edits a shared sub-solver between two solves of the parent) and "
         "compares the observed top-level matrix with both the nested model and the flat model."
         " Further streams: sub-solvers built with hand-named plus auto-raised pins (pin names shared between structures), and a placed sub-solver that exposes one more pin afterwards (the parent must answer as before). Sub-solvers may expose their pins under names that are a cyclic shift of the inner pin names, and may be wired at placement by name (SUB.put(name, (structure, pin))). A child all of whose ports are exposed may be raised in one Structure.raise_pins(pino=[...]) call; exposure names may be declared against alphabetical order."
-        " On every run harness/translate_handover.py reads the CURRENT source of Structure.get_model, Model.__init__ and the sub-solver branch of Structure.createS (the hierarchy step) and coq/templates/HandoverSrcProof.v proves that a solved model reads, between two exposed names, the entry Hier.restrict defines (3 theorems, closed).",
+        " On every run harness/translate_handover.py reads the CURRENT source of Structure.get_model, Model.__init__ and the sub-solver branch of Structure.createS (the hierarchy step) and coq/templates/HandoverSrcProof.v proves that a solved model reads, between two exposed names, the entry Hier.restrict defines (3 theorems, closed)."
+        " A fourth stream places one PARAMETERISED sub-solver twice under different renamings (the twin cases of C05's stream) and requires the value the model computes leaf by leaf.",
    note="Trusted: Coq kernel + vm_compute; Bignums primitives for the executed instance; model tied by sampled correspondence; harness "
         "(resolution of pin names to leaf pins is done by the harness; name handling is C16's subject). Conditional on the model returning Ok.",
    technique="Coq proof (induction over arbitrary nesting) + vm_compute correspondence nested-vs-flat-vs-implementation + source-to-Gallina translation of the model hand-over (get_model / createS) proved equal to Hier.restrict on every run", design="§5 C02"),
@@ -273,7 +274,7 @@ CHECKS = {
         "the global context. The same definitions run under vm_compute against Solver.solve of /repo on random reflective, "
         "non-reciprocal, lossy, multi-link, partially exposed circuits built through the public API in both styles, with scrambled pin "
         "index maps; Coq compares every coefficient between exposed pins within 1e-9."
-        " The streams also map an external name twice (the last mapping counts) and link one pair of structures by 2-4 links in permuted pin order. Components are Models or bare Structures carrying their own matrix. Malformed netlists also give an occupied pin a second link (both building styles); placements may wire at once through Model.put(pin, (structure, pin)) with pins by name or as Pin objects. On every run harness/translate_join.py also translates the CURRENT source of the index bookkeeping around the star product (Structure.sel_output / sel_input / split_in_out / get_S_back) to Gallina and coq/templates/JoinSrcProof.v proves it equal to Solve.part / Solve.assemble / positions in ins ++ outs / Solve.keep for all matrices and pin lists (5 theorems, closed under the global context). Several pins of one component may be exposed in one Structure.raise_pins(pins, names) call listed against declaration order.",
+        " The streams also map an external name twice (the last mapping counts) and link one pair of structures by 2-4 links in permuted pin order. Components are Models or bare Structures carrying their own matrix. Malformed netlists also give an occupied pin a second link (both building styles); placements may wire at once through Model.put(pin, (structure, pin)) with pins by name or as Pin objects. On every run harness/translate_join.py also translates the CURRENT source of the index bookkeeping around the star product (Structure.sel_output / sel_input / split_in_out / get_S_back) to Gallina and coq/templates/JoinSrcProof.v proves it equal to Solve.part / Solve.assemble / positions in ins ++ outs / Solve.keep for all matrices and pin lists, and the rest of Structure.join's bookkeeping: the pin list of the merged structure, the choice of the joined pins (get_out_to / get_in_from / pairing loop = Solve.links), the merged link table and neighbour list (12 theorems, closed under the global context). Several pins of one component may be exposed in one Structure.raise_pins(pins, names) call listed against declaration order.",
    note="Trusted: Coq kernel + vm_compute; Bignums/Uint63 primitives for the executed instance only; hand-written model tied by sampled "
         "correspondence; harness. Theorems conditional on the model returning Ok (all inner systems met by the schedule invertible). "
         "The model follows the fixed code (F01: self-connections are rejected).",
